@@ -8,12 +8,15 @@ import DxModel.GraphCheck
 import Driver.Proto
 import Driver.Shuffle
 import Driver.Cut
+import Driver.Parquet
 import Driver.Repartition
 import Driver.Pred
 import Driver.Cache
 import Driver.Names
 import Driver.Fusion
 import Driver.Cols
+import Driver.Layers
+import Driver.Drivers
 open Dx Dx.Proto
 
 namespace Dx.Drv
@@ -37,12 +40,15 @@ def handlers : List (List String → Option String) :=
   [ handleCore
   , Dx.Drv.Shuffle.handle
   , Dx.Drv.Cut.handle
+  , Dx.Drv.Parquet.handle
   , Dx.Drv.Repartition.handle
   , Dx.Drv.Pred.handle
   , Dx.Drv.Cache.handle
   , Dx.Drv.Names.handle
   , Dx.Drv.Fusion.handle
   , Dx.Drv.Cols.handle
+  , Dx.Drv.Layers.handle
+  , Dx.Drv.Drivers.handle
   ]
 
 def handle (line : String) : String :=
